@@ -273,8 +273,8 @@ def rule_a2(ctx):
 
 
 def run(ctx):
-    rule_a1(ctx)
-    rule_a2(ctx)
+    ctx.guard(rule_a1)
+    ctx.guard(rule_a2)
 
 
 # ---------------------------------------------------------------------------
@@ -866,11 +866,11 @@ def rule_e1(ctx):
 
 
 def run(ctx):   # noqa: F811
-    rule_a1(ctx)
-    rule_a2(ctx)
-    rule_a3(ctx)
-    rule_a4(ctx)
-    rule_a5(ctx)
-    rule_a7(ctx)
-    rule_d1(ctx)
-    rule_e1(ctx)
+    ctx.guard(rule_a1)
+    ctx.guard(rule_a2)
+    ctx.guard(rule_a3)
+    ctx.guard(rule_a4)
+    ctx.guard(rule_a5)
+    ctx.guard(rule_a7)
+    ctx.guard(rule_d1)
+    ctx.guard(rule_e1)
